@@ -122,6 +122,19 @@ def run_ties(ctx):
 
 
 # ----------------------------------------------------------------------------- direct
+import re as _re
+# names that denote a RANGE of codes, a mask or a count — never the name of one code (gABI / DWARF "lo/hi" conventions)
+RANGE_MARKER = _re.compile(r'(_LO(OS|PROC|USER|RESERVE|SUNW)?$|_HI(OS|PROC|USER|RESERVE|SUNW)?$|_LO_|_HI_|_lo_user$|_hi_user$|NUM$)')
+
+
+def marker_shadow(items, v, reported):
+    """the standard names a range marker hides: non-empty when `reported` is a range marker although the table also
+    knows a real (non-marker) name for the same code"""
+    if not RANGE_MARKER.search(reported):
+        return []
+    return [n for n, x in items if x == v and not RANGE_MARKER.search(n)]
+
+
 def check_pair(reg, tid, name, value):
     """None when (name, value) is fine or not judged, else the registry's values."""
     vs = reg.get(name)
@@ -154,6 +167,11 @@ def run_direct(ctx, legacy):
             ctx.out.count('direct:decode')
             if known and k2 not in std and [k2, v] not in legacy:
                 ctx.out.violation('property', 'direct-decode', case, expect={'standard_names': std}, got=k2)
+            # a code that has a real standard name must not be reported under a range marker sharing its value
+            # (DT_FILTER vs DT_HIPROC = 0x7fffffff, SHT_* vs SHT_LOPROC ...): the marker is not "its standard name"
+            hidden = marker_shadow(items, v, k2)
+            if hidden:
+                ctx.out.violation('property', 'direct-marker', case, expect={'standard_names': hidden}, got=k2)
 
 
 # ----------------------------------------------------------------------------- parse
@@ -525,6 +543,12 @@ def replay(ctx, payload):
         known = [n for n, x in items if x == case['code'] and n in reg]
         res.update(impl=k2, expect={'standard_names': std},
                    fails=bool(known) and k2 not in std and (k2, case['code']) not in _legacy(ctx))
+    elif stream == 'direct-marker':
+        items = {t: i for t, i, _ in live_tables()}.get(case['table'], [])
+        rev = dict((x, k) for k, x in items)
+        k2 = rev.get(case['code'])
+        hidden = marker_shadow(items, case['code'], k2) if k2 is not None else []
+        res.update(impl=k2, expect={'standard_names': hidden}, fails=bool(hidden))
     elif stream == 'parse':
         t = ctx.driver.ask({'p': 'C17', 'k': 'tables'})
         gen = {x['id']: [tuple(i) for i in x['items']] for x in t['tables']}
